@@ -227,7 +227,10 @@ def report_violation(prop, s, repo, cfg):
         viols0, _, _ = runner.evaluate(json.loads(json.dumps(spec)))
         if not any(v["kind"] == kind for v in viols0):
             raise HarnessError("violation kind %s of run %s found with in-process module isolation does not reproduce in a freshly forked process" % (kind, s["index"]))
+        # shrink with the cheap in-process isolation, then confirm the result in a fresh process
+        runner.set_isolation("reimport")
         small, stats = minimise.minimise(spec, kind, runner.evaluate, max_cands=300, max_s=60.0)
+        runner.set_isolation("fork")
         viols, result, _ = runner.evaluate(json.loads(json.dumps(small)))
         if not any(v["kind"] == kind for v in viols):
             small, stats = spec, {"note": "minimised run did not reproduce; reporting the unminimised one"}
@@ -336,7 +339,9 @@ def cmd_check(args):
     for f in known:
         if f.get("status") == "open":
             print("KNOWN-FINDING: property=%s %s" % (prop, f.get("what", f.get("id"))))
-    for s in real[:3]:
+    for s in real[1:]:
+        print("  (also failing: run %d, kinds %s - not minimised, re-run with --seed %d to reproduce)" % (s["index"], sorted({v["kind"] for v in s["violations"]}), seed))
+    for s in real[:1]:
         try:
             path, rep = report_violation(prop, s, repo, cfg)
         except HarnessError as e:
